@@ -132,6 +132,7 @@ let model kind input : string = guard (fun () ->
   | "CHILD", [f; i] -> res (m_child (dec_fields f) (z_of_string i))
   | "OBJ", [f; i; sc] -> res_obj (run_obj false (dec_fields f) (z_of_string i) sc)
   | "OBJN", [f; sc] -> res_obj (run_obj true (dec_fields f) (z_of_int 0) sc)
+  | "PCHILD", [s; i] -> (match m_parse (unhexl s) with Err e -> "err " ^ err_name e | Ok k -> res (m_child k (z_of_string i)))
   | "NEUTER", [f] -> res (m_neuter (dec_fields f))
   | "STRING", [f] -> "ok " ^ hexl (m_string (dec_fields f))
   | "PARSE", [_; s] -> res (m_parse (unhexl s))
@@ -163,6 +164,7 @@ let spec kind input : string = guard (fun () ->
   | "CHILD", [f; i] -> with_abs (fun x -> res_x (s_ckd x (z_of_string i))) (dec_fields f)
   | "OBJ", [f; i; _] -> with_abs (fun x -> res_x (s_ckd x (z_of_string i))) (dec_fields f)
   | "OBJN", [f; _] -> with_abs (fun x -> res_x (s_neuter x)) (dec_fields f)
+  | "PCHILD", [s; i] -> (match s_parse (unhexl s) with Err e -> "err " ^ err_name e | Ok x -> res_x (s_ckd x (z_of_string i)))
   | "NEUTER", [f] -> with_abs (fun x -> res_x (s_neuter x)) (dec_fields f)
   | "STRING", [f] -> with_abs (fun x -> "ok " ^ hexl (s_string x)) (dec_fields f)
   | "PARSE", [_; s] -> res_x (s_parse (unhexl s))
